@@ -200,6 +200,31 @@ def search(chk, broken):
                 chk.failures.append(Failure('effective-bc', f'Mach {m}: effective BC {eff} but interpolated BC {exp}{hist}',
                                             {'op': 'mbc-law', 'points': spec, 'mach': m, 'observed': eff, 'expected': exp, 'history': hist.strip()}))
                 break
+        # --- the caller edits his table (a list of dicts) IN PLACE — interior rows only, same length, same end rows — and builds again:
+        #     the new model realises the law for the table as it is NOW
+        if not borrowed and rng.random() < 0.5 and len(tab_in) > 4 and isinstance(tab_in[0], dict):
+            g = rng.choice([0.7, 1.25])
+            for row_ in tab_in[1:-1]:
+                row_['CD'] = row_['CD'] * g
+            dm3 = pbc.DragModelMultiBC([pbc.BCPoint(b, Mach=m) for b, m in snap_pts], tab_in, w, d)
+            for row_in, row in list(zip(tab_in, dm3.drag_table))[1:-1]:
+                m, cd = row_in['Mach'], row_in['CD']
+                if cd == 0 or len({x for x, _ in spec}) < len(spec):
+                    continue
+                if m <= spec[0][0]:
+                    exp = spec[0][1]
+                elif m >= spec[-1][0]:
+                    exp = spec[-1][1]
+                else:
+                    j = max(i for i in range(len(spec) - 1) if spec[i][0] <= m)
+                    (x0, y0), (x1, y1) = spec[j], spec[j + 1]
+                    exp = y0 + (y1 - y0) * (m - x0) / (x1 - x0) if x1 > x0 else y1
+                eff = cd * dm3.BC / row.CD
+                if abs(eff - exp) > 1e-9 * exp:
+                    chk.failures.append(Failure('effective-bc', f'Mach {m}: effective BC {eff} but interpolated BC {exp} for a model built from a table the caller '
+                                                                f'had edited in place (interior CD values x {g}) after an earlier build from the same list',
+                                                {'op': 'mbc-law-edited-table', 'points': spec, 'mach': m, 'observed': eff, 'expected': exp, 'factor': g}))
+                    break
         # --- single point == plain model
         if len(pts) == 1 and not wd:
             plain = pbc.DragModel(pts[0].BC, table)
